@@ -245,6 +245,34 @@ int main(int argc, char** argv) {
             }
             fprintf(out, "\n");
             free(sc); free(th);
+        } else if (strcmp(cmd, "repeat") == 0) {
+            /* "repeat <n> <cell> <close> <fn> <unstable> <args...>": the same call n times; <cell> != 0 names a u32 result cell that must
+             * hold a strictly larger value after every successful call (descriptor numbers handed out by path_open); <close> = 1: the
+             * descriptor just handed out is closed again with fd_close (a failing close counts as a failure) */
+            long n = atol(strtok(NULL, " \n")), i, ok = 0, fail = 0, firstfailat = -1, dups = 0; U32 cell = (U32)strtoul(strtok(NULL, " \n"), NULL, 10);
+            int closeit = atoi(strtok(NULL, " \n"));
+            char* fn = strtok(NULL, " \n"); int unstable = atoi(strtok(NULL, " \n")); U64 a[12]; int na = 0, known = 0; char* t; U32 r = 0, firstfailret = 0;
+            U32 first = 0, last = 0; int have = 0;
+            memset(a, 0, sizeof a);
+            while ((t = strtok(NULL, " \n")) && na < 12) a[na++] = strtoull(t, NULL, 10);
+            for (i = 0; i < n; i++) {
+                r = do_call(fn, unstable, a, &known);
+                if (!known) break;
+                if (r != 0) { if (!fail) { firstfailret = r; firstfailat = i; } fail++; continue; }
+                ok++;
+                if (cell) {
+                    U32 v = i32_load(g_mem, cell);
+                    if (have && v <= last) dups++;
+                    if (!have) first = v;
+                    last = v; have = 1;
+                    if (closeit) {
+                        U64 ca[12]; int k2; memset(ca, 0, sizeof ca); ca[0] = v;
+                        r = do_call("fd_close", unstable, ca, &k2);
+                        if (r != 0) { if (!fail) { firstfailret = r; firstfailat = i; } fail++; ok--; }
+                    }
+                }
+            }
+            fprintf(out, "rep %ld %ld %u %ld %ld %u %u\n", ok, fail, firstfailret, firstfailat, dups, first, last);
         } else if (strcmp(cmd, "res") == 0) {
             struct timespec ts; int id = atoi(strtok(NULL, " \n"));
             clock_getres(id == 0 ? CLOCK_REALTIME : id == 1 ? CLOCK_MONOTONIC : id == 2 ? CLOCK_PROCESS_CPUTIME_ID : CLOCK_THREAD_CPUTIME_ID, &ts);
